@@ -59,7 +59,7 @@ type Parser struct {
 func NewParser(root *html.Node) *Parser {
 	return &Parser{
 		root:            root,
-		allMeta:         dom.GetElementsByTagName(root, "meta"),
+		allMeta:         domutil.WithoutTemplateContent(dom.GetElementsByTagName(root, "meta")),
 		determinedProps: make(map[string]struct{}),
 	}
 }
@@ -222,9 +222,8 @@ func (p *Parser) findAuthor() {
 
 	// Get author from the first element that includes the "byline-name" class.
 	// Note that we ignore the order of this element for now.
-	elem := dom.QuerySelector(p.root, ".byline-name")
-	if elem != nil {
-		p.author = strings.TrimSpace(dom.TextContent(elem))
+	if elems := domutil.WithoutTemplateContent(dom.QuerySelectorAll(p.root, ".byline-name")); len(elems) > 0 {
+		p.author = strings.TrimSpace(dom.TextContent(elems[0]))
 	}
 }
 
@@ -233,9 +232,8 @@ func (p *Parser) findDate() {
 	p.determinedProps["date"] = struct{}{}
 
 	// Get date from any element that includes the "dateline" class.
-	elem := dom.QuerySelector(p.root, ".dateline")
-	if elem != nil {
-		p.date = strings.TrimSpace(dom.TextContent(elem))
+	if elems := domutil.WithoutTemplateContent(dom.QuerySelectorAll(p.root, ".dateline")); len(elems) > 0 {
+		p.date = strings.TrimSpace(dom.TextContent(elems[0]))
 		return
 	}
 
